@@ -34,7 +34,7 @@ use scylla::frame::response::result::TableSpec;
 use scylla::frame::types::{Consistency, SerialConsistency};
 use scylla::policies::load_balancing::{DefaultPolicy, LoadBalancingPolicy, Plan, RoutingInfo};
 use scylla::routing::{NodeLocationPreference, Token};
-use scylla::verif_hooks::cluster::set_sharders;
+use scylla::verif_hooks::cluster::{KeyspaceSpec, NodeSpec, cluster_from_topology_with_tablets, set_sharders};
 use std::cell::RefCell;
 use std::collections::HashMap;
 use std::rc::Rc;
@@ -177,14 +177,52 @@ thread_local! {
     static CACHE: RefCell<HashMap<String, Rc<ClusterState>>> = RefCell::new(HashMap::new());
 }
 
+thread_local! {
+    static RT5: tokio::runtime::Runtime =
+        tokio::runtime::Builder::new_current_thread().enable_all().build().unwrap();
+}
+
+/// A cluster whose keyspace `k<ks>` is tablet based with table `t`; `reps` = the replicas of the one tablet that covers
+/// every token (`None` = the table has no tablet yet).
+fn build_tablet_cluster(peers: &[PeerSpec], kss: &[Strat], ks: usize, reps: Option<&[(u64, u32)]>) -> ClusterState {
+    let nodes: Vec<NodeSpec> = peers
+        .iter()
+        .map(|p| NodeSpec {
+            host_id: host_id(p.id),
+            datacenter: p.dc.map(dc_name),
+            rack: p.rack.map(rack_name),
+            tokens: p.tokens.clone(),
+            enabled: !p.flags.contains('d'),
+            connected: !p.flags.contains('x'),
+        })
+        .collect();
+    let ksv: Vec<KeyspaceSpec> = kss
+        .iter()
+        .enumerate()
+        .map(|(i, s)| KeyspaceSpec { name: format!("k{}", i), strategy: to_strategy(s) })
+        .collect();
+    let mut tables: HashMap<String, Vec<String>> = HashMap::new();
+    tables.insert(format!("k{}", ks), vec!["t".to_owned()]);
+    let mut cs = RT5.with(|rt| rt.block_on(cluster_from_topology_with_tablets(&nodes, &ksv, &tables)));
+    if let Some(reps) = reps {
+        let r: Vec<(uuid::Uuid, u32)> = reps.iter().map(|(h, s)| (host_id(*h), *s)).collect();
+        cs.verif_update_tablets(&[(format!("k{}", ks), "t".to_owned(), i64::MIN + 1, i64::MAX, r)]);
+    }
+    cs
+}
+
 fn cluster(
     topo_s: &str,
     peers: &[PeerSpec],
     ks_s: &str,
     ks: &[Strat],
     sharders: &HashMap<uuid::Uuid, (u16, u8)>,
+    tablet: Option<(usize, &str, Option<&[(u64, u32)]>)>,
 ) -> Rc<ClusterState> {
-    let key = format!("{} {}", topo_s, ks_s);
+    let key = match tablet {
+        None => format!("{} {}", topo_s, ks_s),
+        Some((k, t, _)) => format!("{} {} T{} {}", topo_s, ks_s, k, t),
+    };
     CACHE.with(|c| {
         let mut c = c.borrow_mut();
         if let Some(cs) = c.get(&key) {
@@ -193,7 +231,10 @@ fn cluster(
         if c.len() >= 16 {
             c.clear();
         }
-        let cs = Rc::new(build_cluster(peers, ks));
+        let cs = Rc::new(match tablet {
+            None => build_cluster(peers, ks),
+            Some((k, _, reps)) => build_tablet_cluster(peers, ks, k, reps),
+        });
         // pool-less nodes get the sharder the flags word asks for (`Node::sharder()` answers it)
         set_sharders(&cs, sharders);
         c.insert(key, cs.clone());
@@ -305,17 +346,46 @@ fn obs_list(v: &[Obs]) -> String {
 
 pub fn run(case: &str, ctx: &mut Ctx) -> String {
     let w: Vec<&str> = case.split_whitespace().collect();
-    if w.len() != 6 || !(w[0] == "plan" || w[0].starts_with("plan.")) {
+    let is_plan = !w.is_empty() && (w[0] == "plan" || w[0].starts_with("plan."));
+    let is_tplan = !w.is_empty() && (w[0] == "tplan" || w[0].starts_with("tplan."));
+    if !((is_plan && w.len() == 6) || (is_tplan && w.len() == 7)) {
         return "bad-case".into();
     }
-    let (Some(peers), Some(kss), Some(cfg), Some(rq), Ok(samples)) =
-        (parse_topology(w[1]), parse_strategies(w[2]), parse_config(w[3]), parse_request(w[4]), w[5].parse::<usize>())
-    else {
+    let (Some(peers), Some(kss), Some(cfg), Some(rq), Ok(samples)) = (
+        parse_topology(w[1]),
+        parse_strategies(w[2]),
+        parse_config(w[3]),
+        parse_request(w[4]),
+        w[w.len() - 1].parse::<usize>(),
+    ) else {
         return "bad-case".into();
     };
     if samples == 0 {
         return "bad-case".into();
     }
+    // tplan: the request's table (k<ks>, t) is tablet based; `-` = no tablet yet, else the replicas `id@shard,..` of the
+    // one tablet covering every token (known host ids only; a node may be listed twice with different shards)
+    let tablet: Option<Option<Vec<(u64, u32)>>> = if is_tplan {
+        if !matches!(rq.ks, Some(k) if k < kss.len()) {
+            return "bad-case".into();
+        }
+        if w[5] == "-" {
+            Some(None)
+        } else {
+            let mut v: Vec<(u64, u32)> = Vec::new();
+            for e in w[5].split(',') {
+                let Some((i, sh)) = e.split_once('@') else { return "bad-case".into() };
+                let (Ok(i), Ok(sh)) = (i.parse::<u64>(), sh.parse::<u32>()) else { return "bad-case".into() };
+                if !peers.iter().any(|p| p.id == i) {
+                    return "bad-case".into();
+                }
+                v.push((i, sh));
+            }
+            Some(Some(v))
+        }
+    } else {
+        None
+    };
     let mut sharders: HashMap<uuid::Uuid, (u16, u8)> = HashMap::new();
     let mut sharder_by_id: HashMap<u64, (u16, u8)> = HashMap::new();
     for p in &peers {
@@ -328,7 +398,14 @@ pub fn run(case: &str, ctx: &mut Ctx) -> String {
             }
         }
     }
-    let cs = cluster(w[1], &peers, w[2], &kss, &sharders);
+    let cs = cluster(
+        w[1],
+        &peers,
+        w[2],
+        &kss,
+        &sharders,
+        tablet.as_ref().map(|t| (rq.ks.unwrap(), w[5], t.as_deref())),
+    );
 
     // the policy, through the public builder
     let mut b = DefaultPolicy::builder()
@@ -373,15 +450,42 @@ pub fn run(case: &str, ctx: &mut Ctx) -> String {
     }
     let strat: Option<&Strat> = if cfg.token_aware && rq.token.is_some() { rq.ks.and_then(|k| kss.get(k)) } else { None };
     let tok = rq.token.map(norm_token).unwrap_or(0);
-    let replicas: Vec<u64> =
-        strat.map(|s| brute_replicas(&peers, s, tok).into_iter().map(|i| peers[i].id).collect()).unwrap_or_default();
-    let ring_pos: HashMap<u64, usize> = clockwise_distinct(&ring_of(&peers, None), tok)
-        .into_iter()
-        .enumerate()
-        .map(|(pos, i)| (peers[i].id, pos))
-        .collect();
+    let tablet_reps: Option<Vec<(u64, u32)>> = tablet.as_ref().map(|t| t.clone().unwrap_or_default());
+    let replicas: Vec<u64> = match (&tablet_reps, strat) {
+        // a tablet table: the replicas are the tablet's, the ring is not consulted
+        (Some(reps), Some(_)) => reps.iter().map(|r| r.0).collect(),
+        (None, Some(s)) => brute_replicas(&peers, s, tok).into_iter().map(|i| peers[i].id).collect(),
+        _ => vec![],
+    };
+    // the deterministic replica order: ring order clockwise from the token, tablet definition order for a tablet table
+    let ring_pos: HashMap<u64, usize> = match &tablet_reps {
+        Some(reps) => {
+            let mut m = HashMap::new();
+            for (pos, r) in reps.iter().enumerate() {
+                m.entry(r.0).or_insert(pos);
+            }
+            m
+        }
+        None => clockwise_distinct(&ring_of(&peers, None), tok)
+            .into_iter()
+            .enumerate()
+            .map(|(pos, i)| (peers[i].id, pos))
+            .collect(),
+    };
     let nr_shards = |id: u64| -> u32 { sharder_by_id.get(&id).map(|s| s.0 as u32).unwrap_or(1) };
-    let shard_of = |id: u64| -> u32 { sharder_by_id.get(&id).map(|s| spec_shard(s.0, s.1, tok)).unwrap_or(0) };
+    // the shards a replica target of this node may carry: the tablet's, or the token's shard under the node's sharder
+    let shards_of = |id: u64| -> Vec<u32> {
+        match &tablet_reps {
+            Some(reps) => reps.iter().filter(|r| r.0 == id).map(|r| r.1).collect(),
+            None => vec![sharder_by_id.get(&id).map(|s| spec_shard(s.0, s.1, tok)).unwrap_or(0)],
+        }
+    };
+    let multiplicity = |id: u64| -> usize {
+        let mut v = shards_of(id);
+        v.sort_unstable();
+        v.dedup();
+        v.len().max(1)
+    };
     // coarse order classes of the statement: live replica in the local rack / local datacenter / elsewhere,
     // other live node, node believed down
     let class = |id: u64| -> u8 {
@@ -415,8 +519,11 @@ pub fn run(case: &str, ctx: &mut Ctx) -> String {
 
         // ---- oracle on the plan
         for (i, (id, shard)) in plan.iter().enumerate() {
-            if plan_ids[..i].contains(id) {
-                ctx.fail(format!("sample {}: node {} twice in the plan {}", k, id, nat_list(&plan_ids)));
+            if plan[..i].contains(&(*id, *shard)) {
+                ctx.fail(format!("sample {}: target {}@{} twice in the plan {}", k, id, shard, nat_list(&plan_ids)));
+            }
+            if plan_ids[..i].iter().filter(|j| *j == id).count() >= multiplicity(*id) {
+                ctx.fail(format!("sample {}: node {} more often in the plan than it has replica shards: {}", k, id, nat_list(&plan_ids)));
             }
             let Some(p) = by_id.get(id) else {
                 ctx.fail(format!("sample {}: unknown node {} in the plan", k, id));
@@ -434,16 +541,16 @@ pub fn run(case: &str, ctx: &mut Ctx) -> String {
                     nat_list(&plan_ids)
                 ));
             }
-            if *shard >= nr_shards(*id) {
+            if class(*id) > 2 && *shard >= nr_shards(*id) {
                 ctx.fail(format!("sample {}: shard {} of node {} is not below its shard count {}", k, shard, id, nr_shards(*id)));
             }
-            if class(*id) <= 2 && *shard != shard_of(*id) {
+            if class(*id) <= 2 && !shards_of(*id).contains(shard) {
                 ctx.fail(format!(
-                    "sample {}: replica {} is planned on shard {}, the token's shard there is {}",
+                    "sample {}: replica {} is planned on shard {}, the token's / tablet's shard there is {:?}",
                     k,
                     id,
                     shard,
-                    shard_of(*id)
+                    shards_of(*id)
                 ));
             }
         }
@@ -471,10 +578,15 @@ pub fn run(case: &str, ctx: &mut Ctx) -> String {
             let prefix: Vec<u64> = plan_ids.iter().copied().take_while(|id| class(*id) <= 2).collect();
             if lwt {
                 // ring order within each replica class
+                // position in the deterministic order: of the node on the ring walk, of the (node, shard) entry in a tablet
+                let pos = |i: usize| -> usize {
+                    match &tablet_reps {
+                        Some(reps) => reps.iter().position(|r| *r == plan[i]).unwrap_or(usize::MAX),
+                        None => ring_pos.get(&plan[i].0).copied().unwrap_or(0),
+                    }
+                };
                 for i in 1..prefix.len() {
-                    if class(prefix[i - 1]) == class(prefix[i])
-                        && ring_pos.get(&prefix[i - 1]).copied().unwrap_or(0) > ring_pos.get(&prefix[i]).copied().unwrap_or(0)
-                    {
+                    if class(prefix[i - 1]) == class(prefix[i]) && pos(i - 1) > pos(i) {
                         ctx.fail(format!("sample {}: LWT replicas not in ring order: {}", k, nat_list(&prefix)));
                         break;
                     }
@@ -500,12 +612,12 @@ pub fn run(case: &str, ctx: &mut Ctx) -> String {
         }
         // the fallback iterator itself must not repeat a node, and a shard it supplies is the token's shard
         for (i, (id, shard)) in fb.iter().enumerate() {
-            if fb[..i].iter().any(|(j, _)| j == id) {
-                ctx.fail(format!("sample {}: node {} twice in fallback {}", k, id, obs_list(&fb)));
+            if fb[..i].iter().any(|(j, sj)| j == id && (sj.is_none() || shard.is_none() || sj == shard)) {
+                ctx.fail(format!("sample {}: target of node {} twice in fallback {}", k, id, obs_list(&fb)));
             }
             if let Some(s) = shard {
-                if *s != shard_of(*id) {
-                    ctx.fail(format!("sample {}: fallback gives node {} shard {}, the token's shard there is {}", k, id, s, shard_of(*id)));
+                if !shards_of(*id).contains(s) {
+                    ctx.fail(format!("sample {}: fallback gives node {} shard {}, expected one of {:?}", k, id, s, shards_of(*id)));
                 }
             }
         }
@@ -792,7 +904,7 @@ fn grid(rng: &mut Rng, peers: &[PeerSpec], kss: &[Strat], samples: usize, stride
 /// evidence histogram (both sides accept any first word `plan` or `plan.<tag>`).
 fn tagged(line: String) -> String {
     let w: Vec<&str> = line.split(' ').collect();
-    if w.len() != 6 || w[0] != "plan" {
+    if !((w.len() == 6 && w[0] == "plan") || (w.len() == 7 && w[0] == "tplan")) {
         return line;
     }
     let (Some(cfg), Some(rq)) = (parse_config(w[3]), parse_request(w[4])) else {
@@ -808,7 +920,8 @@ fn tagged(line: String) -> String {
     let lwt = rq.lwt || matches!(rq.consistency, Consistency::Serial | Consistency::LocalSerial);
     let aware = cfg.token_aware && rq.token.is_some() && rq.ks.is_some();
     format!(
-        "plan.{}{}{}{} {}",
+        "{}.{}{}{}{} {}",
+        w[0],
         pref,
         if aware { "T" } else { "U" },
         if cfg.failover { "f" } else { "n" },
@@ -953,6 +1066,71 @@ pub fn generate(rng: &mut Rng, tier: Tier, emit0: &mut dyn FnMut(String)) {
         }
     }
 
+    // 3b. tablet tables: the replicas come from the tablet map (one tablet covering every token), the ring is not
+    // consulted; replicas may be down / disabled / without tokens, a node may be listed twice with different shards
+    for _ in 0..if quick { 500 } else { 8000 } {
+        let mut peers = gen_topology(rng, rich);
+        if peers.len() < 3 {
+            continue;
+        }
+        let kss: Vec<Strat> = (0..2).map(|_| gen_strategy(rng, &peers)).collect();
+        for p in peers.iter_mut() {
+            p.flags = match rng.below(12) {
+                0 | 1 => "x".into(),
+                2 => "d".into(),
+                _ => String::new(),
+            };
+        }
+        add_sharders(rng, &mut peers);
+        let topo = fmt_topology(&peers);
+        let toks = query_tokens(&peers);
+        for _ in 0..4 {
+            let tablet = if rng.chance(1, 12) {
+                "-".to_owned()
+            } else {
+                let k = rng.range(1, 4.min(peers.len() as i64)) as usize;
+                let mut reps: Vec<(u64, u64)> = Vec::new();
+                let mut idx: Vec<usize> = (0..peers.len()).collect();
+                rng.shuffle(&mut idx);
+                for i in idx.into_iter().take(k) {
+                    reps.push((peers[i].id, rng.below(9)));
+                }
+                if rng.chance(1, 5) {
+                    // the same node once more, with another shard
+                    let (id, sh) = *rng.pick(&reps);
+                    reps.push((id, sh + 1 + rng.below(3)));
+                }
+                reps.iter().map(|(i, s)| format!("{}@{}", i, s)).collect::<Vec<_>>().join(",")
+            };
+            let cfg = format!(
+                "{}/{}/{}/{}",
+                gen_pref(rng, &peers, true).fmt(),
+                if rng.chance(7, 8) { "t" } else { "n" },
+                if rng.chance(1, 2) { "f" } else { "n" },
+                if rng.chance(3, 4) { "s" } else { "x" }
+            );
+            let (lwt, cons) = match rng.below(4) {
+                0 => (1, "quorum"),
+                1 => (0, *rng.pick(&["serial", "lserial"])),
+                _ => (0, *rng.pick(&["one", "lq", "quorum", "all"])),
+            };
+            let tok = if rng.chance(1, 10) { "-".to_owned() } else { rng.pick(&toks).to_string() };
+            emit(format!(
+                "tplan {} {} {} {}/{}/{}/{}/-/{} {} {}",
+                topo,
+                fmt_strategies(&kss),
+                cfg,
+                tok,
+                rng.below(2),
+                lwt,
+                cons,
+                gen_pref(rng, &peers, false).fmt(),
+                tablet,
+                samples
+            ));
+        }
+    }
+
     // 4. malformed case lines (both sides must answer `bad-case`)
     for bad in [
         "plan",
@@ -964,6 +1142,12 @@ pub fn generate(rng: &mut Rng, tier: Tier, emit0: &mut dyn FnMut(String)) {
         "plan 1:0:0:5;1:0:0:6 - a/t/f/s -/-/0/one/-/a 3",
         "plan 1:0:0:5 S1 a/t/f 5/0/0/one/-/a 3",
         "route 1:0:0:5 S1 a/t/f/s 5/0/0/one/-/a 3",
+        "tplan 1:0:0:5 S1 a/t/f/s 5/0/0/one/-/a 3",
+        "tplan 1:0:0:5 S1 a/t/f/s 5/3/0/one/-/a 1@0 3",
+        "tplan 1:0:0:5 S1 a/t/f/s 5/-/0/one/-/a 1@0 3",
+        "tplan 1:0:0:5 S1 a/t/f/s 5/0/0/one/-/a 9@0 3",
+        "tplan 1:0:0:5 S1 a/t/f/s 5/0/0/one/-/a 1 3",
+        "tplan 1:0:0:5 S1 a/t/f/s 5/0/0/one/-/a 1@0 0",
     ] {
         emit(bad.to_owned());
     }
